@@ -10,7 +10,7 @@ var (
 
 const (
 	strContinuousDriveString = "SingleContinuousMovieContinuous, Speed PriorityContinuous, LowContinuous, HighSilent SingleUnknownUnknownSingle, SilentContinuous, Silent"
-	strCanonFocusModeString  = "One-shot AFAI Servo AFAI Focus AFSingleContinuousManual Focus"
+	strCanonFocusModeString  = "One-shot AFAI Servo AFAI Focus AFManual FocusSingleContinuousManual Focus"
 )
 
 // ContinuousDrive is part of the CanonCameraSettings field
